@@ -156,7 +156,10 @@ class Run:
             pairs = [(c["sattr"], c["dattr"])] if c.get("sattr") else []
             with warnings.catch_warnings():
                 warnings.simplefilter("ignore")
-                w.connect(ents[c["src"]], ents[c["dst"]], *pairs, **kw)
+                dst_ent = ents[c["dst"]]
+                if c.get("deid") == "k":
+                    dst_ent = dst_ent.children[0]
+                w.connect(ents[c["src"]], dst_ent, *pairs, **kw)
         for s in scen["sims"]:
             if s.get("init_event") is not None:
                 w.set_initial_event(s["sid"], s["init_event"])
